@@ -39,7 +39,7 @@ func (c15) NumCases(tier string) int {
 func (c15) CaseTimeout(string) int { return 180 }
 
 func (c15) Rule() string {
-	return "case kinds by index (4:1:1). BUNDLE: a fixed schema with arguments of every input kind (String, String!, ID, Int, Float, Boolean, enum, custom scalar, input objects with defaults / nesting / lists / self reference, [String], [[Float]], argument defaults) and 8-20 aliased fields (root and nested, every fourth case partly inside a named + an inline fragment, optionally under @skip/@include with a variable), each carrying leaves whose SPELLING is generated at character level with the denoted value known by construction and cross-checked by a reference decoder — quoted strings: the eight simple escapes, \\uXXXX in any hex case (controls, quote, backslash, BMP), surrogate pairs, \\u{...} with leading zeros, raw TAB / other C0 controls / DEL / C1 / U+2028 / BOM / astral characters, an escaped backslash followed by escape-like text; block strings: random lines with mixed space/TAB indentation, blank and whitespace-only lines, LF / CR / CRLF, quotes, \\\"\"\", backslashes, trailing whitespace, non-ASCII; numbers: -0, int32 bounds, int64 bounds, integers beyond int64, fractions with more than 17 digits, exponents e/E with + / - / leading zeros with and without fraction, huge / sub-normal / beyond-double exponents (custom scalar) — placed directly, in lists, in (nested) input objects or inside a custom scalar, plus 1-3 fields whose arguments are variables in the absent / null / value / absent+default / absent+null-default / null+default matrix (top level, inside object literals, inside list literals, whole input objects). GENERATED: gen.GenSchema + valid-by-construction operation (fragments, aliases, duplicates, @skip/@include, variables with defaults, literals mixing variables, list coercion, multi-operation documents) whose string / number leaves are re-spelled the same way and whose JSON variable values use exotic JSON spellings (escapes, surrogate pairs, raw astral / DEL, inter-token whitespace incl. CRLF/TAB, member order, number forms), nullable variables omitted / null / given. FEDERATED: fed.GenLayout (2-3 subgraphs, entities, @requires/@provides/shareable, interfaces, unions, mutations) + generated operation re-spelled the same way: arguments of entity fields travel in _entities fetches. Every case is run, on a real ExecutionEngine, (a) with canonical spellings (baseline), (b) with the chosen spellings, (c) with every constant literal argument turned into a JSON variable, (d) with every provided variable inlined as a literal — each through admission (rig: Input.Variables / printed operation / remap) and through the gateway (recorded subgraph request bodies). Oracle: for every argument-carrying field position of the client operation (static enumeration over all possible runtime types, fragments flattened, directives evaluated) the arguments coerced by the reference coercer from what the subgraph received (query text + variables of the raw body) equal those coerced from the canonical client operation + client variables (Int exact, Float by double value, ID as string, custom scalars with exact rational numbers, absent != null != default); federated: every reference-executed field position (type, object id, field, coerced arguments) was resolved by some subgraph; the same comparison for the normalised operation + Input.Variables; Input.Variables and every request body strictly valid JSON (encoding/json + UTF-8); an omitted client variable is never null and a null one never a value in Input.Variables; runs (b),(c),(d) are not refused when (a) is not. A violation that canonical spellings do not show is attributed: each non-canonical leaf is sent alone in a one-field operation, culprits are minimised by delta debugging and the violation carries the feature class of the minimal witness; the case is then judged again with the culprits spelled canonically, so one defect does not blind the case. Non-trivial = >=1 non-canonical, non-culprit leaf judged at the subgraph; distinct by hash of (schema, operation, variables)."
+	return "case kinds by index (4:1:1). BUNDLE: a fixed schema with arguments of every input kind (String, String!, ID, Int, Float, Boolean, enum, custom scalar, input objects with defaults / nesting / lists / self reference, [String], [[Float]], argument defaults) and 8-20 aliased fields (root and nested, every fourth case partly inside a named + an inline fragment, optionally under @skip/@include with a variable), each carrying leaves whose SPELLING is generated at character level with the denoted value known by construction and cross-checked by a reference decoder — quoted strings: the eight simple escapes, \\uXXXX in any hex case (controls, quote, backslash, BMP), surrogate pairs, \\u{...} with leading zeros, raw TAB / other C0 controls / DEL / C1 / U+2028 / BOM / astral characters, an escaped backslash followed by escape-like text; block strings: random lines with mixed space/TAB indentation, blank and whitespace-only lines, LF / CR / CRLF, quotes, \\\"\"\", backslashes, trailing whitespace, non-ASCII; numbers: -0, int32 bounds, int64 bounds, integers beyond int64, fractions with more than 17 digits, exponents e/E with + / - / leading zeros with and without fraction, huge / sub-normal / beyond-double exponents (custom scalar) — placed directly, in lists, in (nested) input objects or inside a custom scalar, plus (every second bundle / generated case) 2-3 \"twin\" literals — same spelling, different kinds: \"1\"/1, \"1.5\"/1.5, \"true\"/true, \"false\"/false, \"null\"/null, \"[]\"/[], \"{}\"/{}, \"\"/\"0\"/0, never re-spelled — on ID / custom-scalar arguments of the same field under different aliases, of different fields with the same argument type, inside input-object fields and lists, in both orders (string first at least half of the time), plus 1-3 fields whose arguments are variables in the absent / null / value / absent+default / absent+null-default / null+default matrix (top level, inside object literals, inside list literals, whole input objects). GENERATED: gen.GenSchema + valid-by-construction operation (fragments, aliases, duplicates, @skip/@include, variables with defaults, literals mixing variables, list coercion, multi-operation documents) whose string / number leaves are re-spelled the same way and whose JSON variable values use exotic JSON spellings (escapes, surrogate pairs, raw astral / DEL, inter-token whitespace incl. CRLF/TAB, member order, number forms), nullable variables omitted / null / given. FEDERATED: fed.GenLayout (2-3 subgraphs, entities, @requires/@provides/shareable, interfaces, unions, mutations) + generated operation re-spelled the same way: arguments of entity fields travel in _entities fetches. Every case is run, on a real ExecutionEngine, (a) with canonical spellings (baseline), (b) with the chosen spellings, (c) with every constant literal argument turned into a JSON variable, (d) with every provided variable inlined as a literal — each through admission (rig: Input.Variables / printed operation / remap) and through the gateway (recorded subgraph request bodies). Oracle: for every argument-carrying field position of the client operation (static enumeration over all possible runtime types, fragments flattened, directives evaluated) the arguments coerced by the reference coercer from what the subgraph received (query text + variables of the raw body) equal those coerced from the canonical client operation + client variables (Int exact, Float by double value, ID as string, custom scalars with exact rational numbers, absent != null != default); federated: every reference-executed field position (type, object id, field, coerced arguments) was resolved by some subgraph; the same comparison for the normalised operation + Input.Variables; Input.Variables and every request body strictly valid JSON (encoding/json + UTF-8); an omitted client variable is never null and a null one never a value in Input.Variables; runs (b),(c),(d) are not refused when (a) is not. A violation that canonical spellings do not show is attributed: each non-canonical leaf is sent alone in a one-field operation, culprits are minimised by delta debugging and the violation carries the feature class of the minimal witness; the case is then judged again with the culprits spelled canonically, so one defect does not blind the case. Non-trivial = >=1 non-canonical, non-culprit leaf judged at the subgraph; distinct by hash of (schema, operation, variables)."
 }
 
 func (c15) Assumptions() []string {
@@ -54,7 +54,7 @@ func (c15) Assumptions() []string {
 }
 
 func (c15) RequiredCounters(string) []string {
-	return []string{"cases_bundle", "cases_generated", "cases_federated", "runs_judged", "positions_compared", "leaves_exotic_judged", "variables_json_checked", "request_bodies_checked", "normalized_positions_compared", "litvar_pairs_compared", "omitted_variables_judged", "null_variables_judged", "block_strings_judged", "quoted_strings_judged", "numbers_judged", "json_strings_judged", "json_numbers_judged", "runs_lit2var", "runs_var2lit", "federated_positions_compared", "federated_entity_requests"}
+	return []string{"cases_bundle", "cases_generated", "cases_federated", "runs_judged", "positions_compared", "leaves_exotic_judged", "variables_json_checked", "request_bodies_checked", "normalized_positions_compared", "litvar_pairs_compared", "omitted_variables_judged", "null_variables_judged", "block_strings_judged", "quoted_strings_judged", "numbers_judged", "json_strings_judged", "json_numbers_judged", "runs_lit2var", "runs_var2lit", "federated_positions_compared", "federated_entity_requests", "twin_literals"}
 }
 
 // ---------------------------------------------------------------------------------------------
